@@ -59,6 +59,10 @@ class Injected(Exception):
     pass
 
 
+class NSStr(str):
+    pass
+
+
 def tier_config(tier):
     if tier == 'thorough':
         return {'budget_s': 600, 'flavours': ['hooks'], 'run_timeout': 60, 'determinism_sample': 24}
@@ -346,6 +350,9 @@ def run_job(job, io):
                 expect_exc = (TypeError, ValueError)
         f = None
         retry_cls = None
+        if isinstance(ns_arg, str) and ns_arg and sweep is None and tape.draw(6, 'ns-strsub') == 5:
+            ns_arg = NSStr(ns_arg)  # equal to the plain string, not identical, not exactly `str`
+            probes['namespace-str-subclass'] += 1
         if opk == 'register_class' and not (isinstance(cls, type) and hasattr(cls, 'tree_flatten')):
             cls = U.CE
             if args_cls != 42:
